@@ -274,13 +274,32 @@ def run(eng, R):
 
     # ---------------------------------------------------------------- E7
     pe = helpers_r[0]
+    pen = eng.cnode(pe)  # canonical: a shared wrapping helper is written out for each of the three lists
+    # the list popped for each key, followed through plain copies
+    group = {}
+
+    def find(x):
+        while group.get(x, x) != x:
+            x = group[x]
+        return x
+
+    popped = {}
+    for n in ast.walk(pen):
+        if isinstance(n, ast.Assign) and len(n.targets) == 1 and isinstance(n.targets[0], ast.Name):
+            v = n.value
+            if isinstance(v, ast.Name):
+                group[find(n.targets[0].id)] = find(v.id)
+            if isinstance(v, ast.Call) and isinstance(v.func, ast.Attribute) and v.func.attr == "pop" and v.args and common.const_str(v.args[0]) in ("x_errors", "y_errors", "errors"):
+                popped[common.const_str(v.args[0])] = n.targets[0].id
     tests = {}
-    for n in ast.walk(pe.node):
+    for n in ast.walk(pen):
         if isinstance(n, ast.Call) and isinstance(n.func, ast.Name) and n.func.id == "isinstance" and len(n.args) == 2 and isinstance(n.args[0], ast.Subscript) \
-                and isinstance(n.args[0].value, ast.Name) and n.args[0].value.id in ("_xerrs", "_yerrs", "_errs") and ast.unparse(n.args[0].slice) == "0":
+                and isinstance(n.args[0].value, ast.Name) and ast.unparse(n.args[0].slice) == "0":
             ty = n.args[1]
             names = sorted(e.id for e in (ty.elts if isinstance(ty, ast.Tuple) else [ty]) if isinstance(e, ast.Name))
-            tests[n.args[0].value.id] = names
+            for key, var in popped.items():
+                if find(var) == find(n.args[0].value.id):
+                    tests[{"x_errors": "_xerrs", "y_errors": "_yerrs", "errors": "_errs"}[key]] = names
     if set(tests) != {"_xerrs", "_yerrs", "_errs"}:
         raise AnalysisError("process_error_sources: shorthand element tests not found (%s)" % sorted(tests))
     ref = tests["_yerrs"]
